@@ -45,6 +45,18 @@ def family(tier, rnd):
                     for hks in combos:
                         for he in (["ret", "rethrow"] if tier != "quick" else [rnd.choice(["ret", "noret", "rethrow"])]):
                             P.append(chain_prog(depth, rk, sw, list(hks), he, levels=levels))
+    # an exception of a type DEFINED IN A MODULE FILE, raised there, handled by name in the main file or on the way - the main file
+    # importing the whole module, or only the methods it calls (the type is then not among the main file's names)
+    for depth in (1, 2, 3):
+        for levels in LV[depth]:
+            if not levels[depth - 1]: continue
+            for sw in ("plain", "call-arg"):
+                combos = [c for c in itertools.product(["none", "match", "nomatch"], repeat=depth + 1) if 1 <= sum(1 for x in c if x != "none") <= 2]
+                if tier == "quick":
+                    combos = rnd.sample(combos, min(len(combos), 4))
+                for hks in combos:
+                    for sel in (False, True):
+                        P.append(chain_prog(depth, "custm", sw, list(hks), rnd.choice(["ret", "noret", "rethrow"]) if tier == "quick" else "ret", levels=levels, selective=sel))
     # special sites: constructor, handler block faulting, method on object with 其 of the caller, two handlers same class
     def add(tag, p):
         p["tag"] = tag; P.append(p)
